@@ -1,12 +1,11 @@
 SPECIFICATION Spec
 CONSTANTS
-  MaxOpen = 2
-  MaxClose = 2
-  MaxReq = 2
+  MaxOpen = 1
+  MaxClose = 0
+  MaxReq = 3
   MaxConn = 3
   MaxFail = 1
-  EagerRelease = FALSE
+  EagerRelease = TRUE
 CONSTRAINT Bound
 INVARIANT NoViolation
-INVARIANT Structural
 CHECK_DEADLOCK FALSE
